@@ -113,6 +113,11 @@ pub fn types_for<B: Backend>(out: &mut Vec<TextType>) {
     tt!(out, B, "id.lid", format!("{k}.lid."), true, Some(33), false, KeyId<V<B>, Local>);
     tt!(out, B, "id.pid", format!("{k}.pid."), true, Some(33), false, KeyId<V<B>, Public>);
     tt!(out, B, "id.sid", format!("{k}.sid."), true, Some(33), false, KeyId<V<B>, Secret>);
+    // the key-sealing (PKE) key kinds share the text headers of the signing kinds
+    tt!(out, B, "id.pke-pid", format!("{k}.pid."), true, Some(33), false, KeyId<V<B>, PkePublic>);
+    tt!(out, B, "id.pke-sid", format!("{k}.sid."), true, Some(33), false, KeyId<V<B>, PkeSecret>);
+    tt!(out, B, "keytext.pke-public", format!("{k}.public."), true, None, false, KeyText<V<B>, PkePublic>);
+    tt!(out, B, "keytext.pke-secret", format!("{k}.secret."), true, None, false, KeyText<V<B>, PkeSecret>);
     tt!(out, B, "pie.local", format!("{k}.local-wrap.pie."), true, None, false, PieWrappedKey<V<B>, Local>);
     tt!(out, B, "pie.secret", format!("{k}.secret-wrap.pie."), true, None, false, PieWrappedKey<V<B>, Secret>);
     tt!(out, B, "pw.local", format!("{k}.local-pw."), true, None, false, PasswordWrappedKey<V<B>, Local>);
@@ -177,6 +182,9 @@ pub fn valid_strings<B: Backend>(seed: &KeySeed) -> Vec<(&'static str, String)> 
     if let Ok(s) = lk.clone().seal(&ppk) {
         out.push(("seal", s.to_string()));
     }
+    let (psk, _, _, _) = pke_pair::<B>(seed);
+    out.push(("id.pke-pid", ppk.id().to_string()));
+    out.push(("id.pke-sid", psk.id().to_string()));
     if B::VER == Ver::V1 {
         // v1 PKE keys are distinct (RSA-4096) keys with the same text headers
         out.push(("key.pke-secret", KeyText::<V<B>, PkeSecret>::from_raw_bytes(&psk_raw).to_string()));
@@ -190,8 +198,10 @@ pub fn kind_compatible(source: &str, target: &str, ver: Ver) -> Option<bool> {
     let canon = |k: &str| -> &str {
         match k {
             "keytext.local" | "key.local" => "local",
-            "keytext.public" | "key.public" | "key.pke-public" => "public",
-            "keytext.secret" | "key.secret" | "key.pke-secret" => "secret",
+            "keytext.public" | "key.public" | "key.pke-public" | "keytext.pke-public" => "public",
+            "keytext.secret" | "key.secret" | "key.pke-secret" | "keytext.pke-secret" => "secret",
+            "id.pke-pid" => "id.pid",
+            "id.pke-sid" => "id.sid",
             o => o,
         }
         .to_string()
